@@ -47,6 +47,44 @@ def _names(rng, pn, ver, shared):
     return out
 
 
+FLAGS = ("extras", "doc", "gui", "test")
+
+
+def _conditional_src_uri(rng, pn, pv, base):
+    """-> (SRC_URI-like string of file names, enabled flags, evaluated names, all names).
+
+    The evaluation is done here, by construction (a group's files count iff every enclosing condition holds);
+    the harness builds a real DepSet from the string for the raw package and cross-checks."""
+    use = sorted(f for f in FLAGS if rng.random() < 0.4)
+    tokens, evaluated, allnames = list(base), list(base), list(base)
+    counter = [0]
+
+    def group(depth, active):
+        flag = rng.choice(FLAGS)
+        neg = rng.random() < 0.4
+        holds = active and ((flag in use) != neg)
+        counter[0] += 1
+        name = "%s-%s-%s%d.tar.xz" % (pn, pv, flag if not neg else "no" + flag, counter[0])
+        allnames.append(name)
+        if holds:
+            evaluated.append(name)
+        inner = [name]
+        if depth < 2 and rng.random() < 0.4:
+            inner += group(depth + 1, holds)
+        return ["%s%s?" % ("!" if neg else "", flag), "("] + inner + [")"]
+
+    for _ in range(rng.choice((1, 1, 2, 3))):
+        tokens += group(0, True)
+    if len(evaluated) == len(allnames):
+        # make sure at least one group is disabled: a group on a flag that is forced off / on
+        flag = rng.choice(FLAGS)
+        neg = flag in use
+        name = "%s-%s-%s-off.tar.xz" % (pn, pv, flag)
+        allnames.append(name)
+        tokens += ["%s%s?" % ("!" if neg else "", flag), "(", name, ")"]
+    return " ".join(tokens), use, evaluated, allnames
+
+
 def _nest(rng, names):
     """Random nesting, as iflatten_instance has to cope with (conditional groups are nested sequences)."""
     if len(names) > 1 and rng.random() < 0.5:
@@ -66,13 +104,18 @@ def scenario(rng):
     for cat, pn in sorted(keys):
         for ver in rng.sample(VERS, rng.choice((1, 1, 2, 3))):
             names = _names(rng, pn, ver, shared)
-            raw = None
-            if rng.random() < 0.25:
-                raw = names + ["%s-%s-extra.tar.xz" % (pn, _pv(ver))]      # USE-conditional distfile, flag off
+            raw = src_uri = use = None
+            if rng.random() < 0.45:
+                # SRC_URI with USE-conditional groups: `flag? ( f )`, `!flag? ( f )`, nested; the flags are set so that
+                # some groups are disabled -> the configured package's distfiles are a strict subset of the raw ones
+                src_uri, use, names, raw = _conditional_src_uri(rng, pn, _pv(ver), names)
             r = rng.random()
             restrict = ["fetch"] if r < 0.22 else ["mirror"] if r < 0.35 else ["fetch", "strip"] if r < 0.4 else []
-            pk = {"cat": cat, "pn": pn, "ver": ver, "distfiles": _nest(rng, names),
-                  "raw_distfiles": None if raw is None else _nest(rng, raw), "restrict": restrict}
+            pk = {"cat": cat, "pn": pn, "ver": ver, "distfiles": _nest(rng, names) if src_uri is None else list(names),
+                  "raw_distfiles": raw, "restrict": restrict}
+            if src_uri is not None:
+                pk["src_uri"] = src_uri
+                pk["use"] = use
             repos[0 if rng.random() < 0.7 else 1]["pkgs"].append(pk)
             allpk.append(pk)
     installed = []
